@@ -28,6 +28,7 @@ import PGProofs.Bridge
 import PGProofs.MomentsThm
 import PGProofs.RewardsThm
 import PGProofs.EndToEnd
+import PGProofs.EndToEnd2
 
 set_option linter.all false
 set_option pp.fieldNotation.generalized false
@@ -95,6 +96,12 @@ theorem end_to_end_raw : ∀ {D : ℕ} {K : Type} [inst : Field K] [inst_1 : Lin
 /-- instantiated with the real matrix exponential on a concrete model (BFS evaluated in the kernel) -/
 theorem end_to_end_instance : type_of% @PG.EndToEnd.capstone_instance := @PG.EndToEnd.capstone_instance   -- (printed statement does not re-elaborate; see the source lemma)
 
+/-- CAPSTONE with the epoch list, size vectors and migration matrices produced by the demography model from the user's named change dictionaries (translation toEvents; config_value_is_specValue; epoch_tables_from_demography) -/
+theorem end_to_end_with_demography : type_of% @PG.EndToEnd.capstone_with_demography := @PG.EndToEnd.capstone_with_demography   -- (printed statement does not re-elaborate; see the source lemma)
+
+/-- the named value in force of the input glue = the value the epoch generator assigns (distinct keys per dict level) -/
+theorem demography_value_link : ∀ (I : Config.Input), EndToEnd.DictInput I → ∀ (t : ℚ), (∀ p ∈ Config.allNames I, specValue (allChanges (sortEvents (EndToEnd.toEvents I))) (popNames (sortEvents (EndToEnd.toEvents I))) (Key.size (EndToEnd.nameIdx I p)) t = some (Config.sizeAt I.sizes p t)) ∧ ∀ p ∈ Config.allNames I, ∀ q ∈ Config.allNames I, specValue (allChanges (sortEvents (EndToEnd.toEvents I))) (popNames (sortEvents (EndToEnd.toEvents I))) (Key.mig (EndToEnd.nameIdx I p) (EndToEnd.nameIdx I q)) t = some (Config.rateAt I.mig (p, q) t) := @PG.EndToEnd.config_value_is_specValue
+
 end PG.C01
 
 #print axioms PG.C01.moments_eq_labelled
@@ -117,3 +124,5 @@ end PG.C01
 #print axioms PG.C01.end_to_end_nonvacuous
 #print axioms PG.C01.end_to_end_raw
 #print axioms PG.C01.end_to_end_instance
+#print axioms PG.C01.end_to_end_with_demography
+#print axioms PG.C01.demography_value_link
